@@ -813,7 +813,23 @@ class BoundedNative:
         n = self.nseeds if tier == "quick" else 4 * self.nseeds
         worst = 0.0
         for k in range(n):
-            err = float(self.nat(np.random.default_rng(seed * 1000 + k)))
+            try:
+                err = float(self.nat(np.random.default_rng(seed * 1000 + k)))
+            except RuntimeError as e:
+                if str(e).startswith("harness:"):
+                    raise
+                err, raised = float("inf"), f"{type(e).__name__}: {e}"
+            except Exception as e:  # noqa: BLE001
+                # the real code raises on an input on which the contract is evaluated (it does not on the committed tree): a failing input
+                err, raised = float("inf"), f"{type(e).__name__}: {e}"
+            else:
+                raised = None
+            if raised is not None:
+                wit = dict(obligation=ob.name, seed=seed * 1000 + k, raised=raised)
+                return Result(REFUTED, backend="native-contract-evaluation", witness=wit, replayed=True, replay_info=dict(check=self.what, raised=raised),
+                              detail=f"{ob.name}: {self.what}: the code raises {raised[:200]} (seed {seed * 1000 + k})")
+            if not np.isfinite(err):
+                err = float("inf")
             worst = max(worst, err)
             if err > self.tol:
                 wit = dict(obligation=ob.name, seed=seed * 1000 + k, err=err)
@@ -822,8 +838,11 @@ class BoundedNative:
         return Result(BOUNDED_OK, backend="native-contract-evaluation", detail=f"bounded: {n} random instances, worst error {worst:.2e}")
 
     def replay(self, wit):
-        err = float(self.nat(np.random.default_rng(wit["seed"])))
-        return bool(err > self.tol), dict(check=self.what, err=err)
+        try:
+            err = float(self.nat(np.random.default_rng(wit["seed"])))
+        except Exception as e:  # noqa: BLE001
+            return True, dict(check=self.what, raised=f"{type(e).__name__}: {e}")
+        return bool(not err <= self.tol), dict(check=self.what, err=err)
 
 
 def nat_grad_derivative_case(Nspin, xc):
